@@ -221,6 +221,8 @@ func FullDump(bc *core.Blockchain, deployed []util.Uint160) Dump {
 		d["stateroot"] = "ERR " + err.Error()
 	}
 	d["localroot"] = bc.GetStateModule().CurrentLocalStateRoot().StringLE()
+	// what getstateheight answers (with the state root in the header every local root is a validated one)
+	d["stateheight"] = fmt.Sprintf("local %d validated %d", bc.GetStateModule().CurrentLocalHeight(), bc.GetStateModule().CurrentValidatedHeight())
 	StorageDump(bc, d)
 	d["vm/getters"] = RunReadOnly(bc, GetterScript(deployed))
 	d["vm/height"] = RunReadOnly(bc, HeightScript(h, bc.P2PSigExtensionsEnabled()))
